@@ -36,6 +36,9 @@ CHECKS = {
  "C11": dict(cat="exploration", tech="bounded-exhaustive enumeration of operand format pairs x operators plus Hypothesis-generated operands (unequal dimensions, scalars of each Python type, wrong orders for @) against an exact-rational element-wise/matrix reference; results decoded from raw arrays in a disposable native worker",
    text="Every enumerated/generated operator call must return the tensor ordinary arithmetic defines (right dimensions, every coordinate), raise ValueError exactly when the shapes are incompatible, or refuse with NoKernelFoundError; for natural orderings the result format must follow the documented rule.",
    note="Trusted: the rational reference (30 lines) and the raw-array decoder.", ref="DESIGN.md §3 C11"),
+ "C12": dict(cat="exploration", tech="grammar-based and arbitrary-text fuzzing (Hypothesis; Atheris coverage-guided in thorough) with round-trip oracles, an independent precedence-climbing evaluator as meaning oracle, typed-failure checks for sentences invalid by construction, and exhaustive enumeration of short format strings against a reference grammar",
+   text="Generated sentences (all literal spellings, random spaces, redundant parentheses), generated trees, arbitrary and mutated text, and every format string over {d,s,0-3} up to the tier length go through the parsers: nothing is raised, accepted text round-trips, the parsed tree folds to the value an independent evaluator computes from the text, invalid sentences give the specific typed failure, format acceptance matches the documented grammar.",
+   note="Trusted: the harness's 60-line tokenizer/evaluator as the conventional meaning of the text; bounded string length 256.", ref="DESIGN.md §3 C12"),
 }
 def main():
     checks = []
